@@ -5,6 +5,8 @@ import LdkModel.Generated.OnionPayloads
 import LdkModel.Model.OnionInstr
 import LdkModel.Generated.OnionBlinded
 import LdkModel.Model.OnionFwdInfo
+import LdkModel.Generated.OnionBlame
+import LdkModel.Generated.OnionInbFail
 /- C14 driver: the model functions of Model/Onion.lean instantiated with ChaCha20 / HMAC-SHA256
    (`Onion.ldk`) and LDK's key derivations.  Ops (hex for bytes, `-` = empty):
      build <L|std> <prng-seed> <assoc-data> <n> (<shared-secret> <payload>)*   → <hop_data> <hmac> | err
@@ -43,6 +45,10 @@ import LdkModel.Model.OnionFwdInfo
            (GENERATED fwdBlinded = create_fwd_pending_htlc_info's `blinded:` field, nextBlindingPoint = channelmanager's outgoing point)
      fwdchain <first path key> <n> (<override|none> <derived|none>)*  → one `blinded …`/`none` per hop, `|`-separated, then final=<point handed to the recipient>
            (relayBlinded: the generated per-hop functions chained over the forwarding hops of a (concatenated) blinded tail)
+     blame <code> <is_final 0|1> <update_ok 0|1>  → scid=<none|self|next> perm=<0|1>
+           (GENERATED blameDecision, failing hop a RouteHop: which channel the sender names, payment_failed_permanently)
+     inbfail <update_add has blinding point 0|1> <hmac|blindedcheck> <code>  → malformed <code> | relay
+           (GENERATED inboundFailure: decode_incoming_update_add_htlc_onion's answer at the decodeMalformed / blindedForwardCheck sites)
    The payload TLV pretty-printer below is presentation only (the model treats payloads as opaque
    length-framed byte strings). -/
 namespace Ldk.Driver
@@ -288,6 +294,18 @@ def c14 : Drv where
       let hops := (pairsOf rest).map fun (o, d) => ({ derive := fun _ => optBytes d, next_blinding_override := optBytes o } : BlindedHopSpec)
       let fin := match relayFinalKey (some (unhex e0)) none hops with | none => "none" | some x => hex x
       ((), " | ".intercalate ((relayBlinded (some (unhex e0)) none hops).map showBlinded) ++ s!" | final={fin}")
+    | ["blame", code, fin, upd] =>
+      let b := blameDecision (nat! code) (fin == "1") true (upd == "1")
+      let sc := match b.short_channel_id with | none => "none" | some .routeHop => "self" | some .failingHop => if fin == "1" then "self" else "next"
+      ((), s!"scid={sc} perm={if b.payment_failed_permanently then 1 else 0}")
+    | ["inbfail", bp, site, code] =>
+      let st : Option InboundFailSite := if site == "hmac" then some (.decodeMalformed (nat! code)) else if site == "blindedcheck" then some .blindedForwardCheck else none
+      match st with
+      | none => ((), "bad-op")
+      | some st =>
+        match inboundFailure (bp == "1") st with
+        | .malformed _ c => ((), s!"malformed {c}")
+        | .relay _ _ => ((), "relay")
     | "faildecode" :: n :: rest =>
       if rest.length ≠ nat! n + 1 then ((), "bad-op") else
       let keys := (rest.take (nat! n)).map fun ss => failKeysOfSecret (unhex ss)
